@@ -28,6 +28,9 @@ func vCachePool() []vOp {
 		{q: `{ me { ...F } } fragment F on Human { name }`},
 		{q: `{ me { ...F } } fragment F on Human { phone }`},
 		{q: `query($c: Int = 5) { me { phone(cc: $c) } }`},
+		// one selection text, different declared types of a variable that sits inside a custom scalar value
+		{q: `query($v: Int) { me { tag(meta: {a: $v}) phone } }`, vars: func() map[string]interface{} { return map[string]interface{}{"v": 3} }},
+		{q: `query($v: String) { me { tag(meta: {a: $v}) phone } }`, vars: func() map[string]interface{} { return map[string]interface{}{"v": "three"} }},
 		{q: `query($c: Int) { me { phone(cc: $c) } }`, vars: func() map[string]interface{} {
 			return map[string]interface{}{"c": verifInt("var_c", 0, 9)}
 		}},
